@@ -174,13 +174,16 @@ theorem ntOk_main (env : Env) (hc : env.custom = none) (hr : RecogOk env) (hns :
         intro l; exact ⟨hcx.1, hc1.2.1, hc1.2.2⟩
       have hcx'' : CtxOk env.input { cx with state := ctx1.state, span := ctx1.span } :=
         ⟨hcx.1, hc1.2.1, hc1.2.2⟩
+      -- no layout found: the position is put back
+      have hback : CtxOk env.input { cx with state := ctx1.state, span := ctx1.span, pos := ctx1.pos } :=
+        ⟨hc1.1, hc1.2.1, hc1.2.2⟩
       split at hn
       · split at hn
         · split at hn
           · exact ntOk_base env hc hr pp _ ctx' o (hcx' _) hn
-          · exact noToken_ok env pp _ ctx' o hcx'' hn
-        · exact noToken_ok env pp _ ctx' o hcx'' hn
-      · exact noToken_ok env pp _ ctx' o hcx'' hn
+          · exact noToken_ok env pp _ ctx' o hback hn
+        · exact noToken_ok env pp _ ctx' o hback hn
+      · exact noToken_ok env pp _ ctx' o hback hn
       · injection hn with h1 h2
         subst h1 h2
         exact ⟨hcx'', by intro tk htk; simp at htk⟩
